@@ -832,4 +832,282 @@ theorem setParent_stable {g g' : G} {c : Nat} {p : Option Nat} (h : setParent g 
         · exact e1.trans (modAppend_stable h)
         · exact e1.trans (nodeSetAdd_stable h)
 
+/-- allocation only grows; kinds and uuids of existing nodes never change -/
+def Grows (g g' : G) : Prop := g.n ≤ g'.n ∧ ∀ x, x < g.n → g'.kind x = g.kind x ∧ g'.uuid x = g.uuid x
+
+theorem Stable.grows {g g' : G} (h : Stable g g') : Grows g g' :=
+  ⟨Nat.le_of_eq h.n.symm, fun x _ => ⟨by rw [h.kind], by rw [h.uuid]⟩⟩
+
+theorem Grows.trans {a b c : G} (h1 : Grows a b) (h2 : Grows b c) : Grows a c :=
+  ⟨Nat.le_trans h1.1 h2.1, fun x hx =>
+    ⟨((h2.2 x (Nat.lt_of_lt_of_le hx h1.1)).1).trans (h1.2 x hx).1,
+     ((h2.2 x (Nat.lt_of_lt_of_le hx h1.1)).2).trans (h1.2 x hx).2⟩⟩
+
+theorem grows_alloc (g : G) (k : Kind) (u : Nat) : Grows g (alloc g k u).1 :=
+  ⟨Nat.le_succ _, fun x hx => by simp [Nat.ne_of_lt hx]⟩
+
+theorem bindE_ok {x : Except Exc G} {f : G → Except Exc G} {g' : G} (h : bindE x f = .ok g') :
+    ∃ g2, x = .ok g2 ∧ f g2 = .ok g' := by
+  cases x with
+  | error e => simp [bindE] at h
+  | ok g2 => exact ⟨g2, rfl, h⟩
+
+theorem foldl_bindE_inv {α : Type} (I : G → Prop) (body : G → α → Except Exc G) (l : List α)
+    (hstep : ∀ a ∈ l, ∀ g g', I g → body g a = .ok g' → I g') :
+    ∀ (acc : Except Exc G) (g' : G), (∀ g, acc = .ok g → I g) →
+      l.foldl (fun acc a => bindE acc fun g => body g a) acc = .ok g' → I g' := by
+  induction l with
+  | nil => intro acc g' hacc h; exact hacc g' h
+  | cons a as ih =>
+    intro acc g' hacc h
+    simp only [List.foldl_cons] at h
+    refine ih (fun b hb => hstep b (List.mem_cons_of_mem _ hb)) _ g' ?_ h
+    intro g1 hg1
+    cases acc with
+    | error e => simp [bindE] at hg1
+    | ok g0 => exact hstep a List.mem_cons_self g0 g1 (hacc g0 rfl) hg1
+
+/-- every operation: allocation only grows, kinds and uuids of existing nodes are unchanged -/
+theorem step_grows {g g' : G} {op : Op} (hs : step g op = .ok g') : Grows g g' := by
+  cases op with
+  | mkIR u =>
+    simp only [step] at hs; cases hs
+    exact ⟨Nat.le_succ _, fun x hx => by
+      have e1 : (mkIR g u).kind = (alloc g .ir u).1.kind := rfl
+      have e2 : (mkIR g u).uuid = (alloc g .ir u).1.uuid := rfl
+      rw [e1, e2]; simp [Nat.ne_of_lt hx]⟩
+  | mk k u kids parent =>
+    simp only [step] at hs
+    split at hs
+    · cases hs
+    · generalize hgen : alloc g k u = a at hs
+      have ha1 : a.1 = (alloc g k u).1 := by rw [hgen]
+      have ha2 : a.2 = g.n := by rw [← hgen]; rfl
+      obtain ⟨g1, v⟩ := a
+      simp only at ha1 ha2 hs
+      subst ha1 ha2
+      obtain ⟨g2, hfold, hs'⟩ := bindE_ok hs
+      have hI : Stable (alloc g k u).1 g2 := by
+        refine foldl_bindE_inv (fun g' => Stable (alloc g k u).1 g')
+          (fun g0 (x : Slot × List Nat) => if x.1 = .blocks then blkUpdate g0 g.n x.2
+                 else foldE (fun g0 y => setAdd g0 g.n x.1 y) x.2 g0) kids ?_ _ g2 ?_ hfold
+        · intro sv _ ga gb hga hbody
+          split at hbody
+          · exact hga.trans (blkUpdate_stable hbody)
+          · exact hga.trans (stable_foldE (fun _ _ _ h => setAdd_stable h) _ hbody)
+        · intro g0 hg0; cases hg0; exact Stable.refl _
+      refine (grows_alloc g k u).trans (hI.grows.trans ?_)
+      split at hs'
+      · exact (setParent_stable hs').grows
+      · cases hs'; exact (Stable.refl _).grows
+  | mkSym u nm pl parent =>
+    simp only [step, alloc] at hs
+    have hg : Grows g { (alloc g .symbol u).1 with
+        name := fun x => if x = g.n then nm else g.name x,
+        payload := fun x => if x = g.n then pl else g.payload x } := grows_alloc g .symbol u
+    split at hs
+    · exact hg.trans (setParent_stable hs).grows
+    · cases hs; exact hg
+  | setParent c p => exact (setParent_stable hs).grows
+  | add p s v => exact (nodeSetAdd_stable hs).grows
+  | discard p s v => exact (setDiscard_stable hs).grows
+  | remove p s v =>
+    simp only [step] at hs
+    split at hs
+    · exact (setDiscard_stable hs).grows
+    · cases hs
+  | pop p s v =>
+    simp only [step] at hs
+    split at hs
+    · cases hs
+    · split at hs
+      · exact (setDiscard_stable hs).grows
+      · cases hs
+  | clear p s order =>
+    simp only [step] at hs
+    split at hs
+    · exact (stable_foldE (fun _ _ _ h => setDiscard_stable h) _ hs).grows
+    · cases hs
+  | update p s vs =>
+    simp only [step] at hs
+    split at hs
+    · exact (blkUpdate_stable hs).grows
+    · exact (stable_foldE (fun _ _ _ h => setAdd_stable h) _ hs).grows
+  | isub p s vs =>
+    simp only [step] at hs
+    exact (stable_foldE (fun _ _ _ h => setDiscard_stable h) _ hs).grows
+  | iand p s vs order =>
+    simp only [step] at hs
+    split at hs
+    · exact (stable_foldE (fun _ _ _ h => setDiscard_stable h) _ hs).grows
+    · cases hs
+  | ixor p s vs =>
+    simp only [step] at hs
+    refine (stable_foldE (fun g1 x g2 h => ?_) _ hs).grows
+    split at h
+    · exact setDiscard_stable h
+    · exact nodeSetAdd_stable h
+  | insert i k v => exact (modInsert_stable hs).grows
+  | append i v => exact (modAppend_stable hs).grows
+  | extend i vs =>
+    simp only [step] at hs
+    exact (stable_foldE (fun _ _ _ h => modAppend_stable h) _ hs).grows
+  | delItem i k => exact (modDelItem_stable hs).grows
+  | setItem i k v => exact (modSetItem_stable hs).grows
+  | listRemove i v => exact (modListRemove_stable hs).grows
+  | listPop i k =>
+    simp only [step] at hs
+    split at hs
+    · cases hs
+    · exact (modDelItem_stable hs).grows
+  | reverse i => simp only [step] at hs; cases hs; exact (modReverse_stable g i).grows
+  | listClear i => exact (modClear_stable hs).grows
+  | setName v nm => simp only [step] at hs; cases hs; exact (setName_stable g v nm).grows
+  | setPayload v pl => simp only [step] at hs; cases hs; exact (setPayload_stable g v pl).grows
+
+/-! ### back-pointers after `add` / `update` / `insert` -/
+
+theorem relink_par (g : G) (p : Nat) (s : Slot) (v c : Nat) :
+    (relink g p s v).par c = if c = v then some p else g.par c := by
+  unfold relink
+  simp only [setPar_par]
+  split
+  · rfl
+  · rename_i hc
+    unfold detachOld
+    split
+    · rw [detach_par]; simp [hc]
+    · rfl
+
+theorem attach_par (g : G) (p : Nat) (s : Slot) (v c : Nat) :
+    (attach g p s v).par c = if c = v then some p else g.par c := by
+  unfold attach; rw [kidsInsert_par, relink_par]
+
+theorem blkUpdatePure_par (g : G) (p : Nat) (new : List Nat) (c : Nat) :
+    (blkUpdatePure g p new).par c = if c ∈ new then some p else g.par c := by
+  unfold blkUpdatePure
+  have h1 : ∀ (l : List Nat) (g0 : G), (l.foldl (fun g v => kidsInsert g p .blocks v) g0).par = g0.par := by
+    intro l
+    induction l with
+    | nil => intro g0; rfl
+    | cons a as ih => intro g0; simp only [List.foldl_cons]; rw [ih]; rfl
+  rw [h1]
+  induction new generalizing g with
+  | nil => simp
+  | cons a as ih =>
+    simp only [List.foldl_cons]
+    rw [ih, relink_par]
+    simp only [List.mem_cons]
+    by_cases h1 : c ∈ as
+    · simp [h1]
+    · by_cases h2 : c = a
+      · simp [h2]
+      · simp [h1, h2]
+
+theorem setAdd_par {g g' : G} {p : Nat} {s : Slot} {v : Nat} (h : setAdd g p s v = .ok g') (c : Nat) :
+    g'.par c = if c = v then some p else g.par c := by
+  have := congrArg (fun x => G.par x c) (setAdd_core h)
+  simp only [core_par] at this
+  rw [this, attach_par]; rfl
+
+theorem blkUpdate_par {g g' : G} {p : Nat} {vs : List Nat} (h : blkUpdate g p vs = .ok g') (c : Nat) :
+    g'.par c = if c ∈ blkNew g p vs then some p else g.par c := by
+  have := congrArg (fun x => G.par x c) (blkUpdate_core h)
+  simp only [core_par] at this
+  rw [this, blkUpdatePure_par]; rfl
+
+theorem modInsert_par {g g' : G} {i : Nat} {k : Int} {v : Nat} (h : modInsert g i k v = .ok g') (c : Nat) :
+    g'.par c = if c = v then some i else g.par c := by
+  have := congrArg (fun x => G.par x c) (modInsert_core h)
+  simp only [core_par] at this
+  rw [this]
+  unfold modInsertPure
+  rw [kidsSet_par, relink_par]; rfl
+
+theorem modAppend_par {g g' : G} {i v : Nat} (h : modAppend g i v = .ok g') (c : Nat) :
+    g'.par c = if c = v then some i else g.par c := modInsert_par h c
+
+/-- fold invariant that also records which elements were processed -/
+theorem foldl_bindE_inv_done {α : Type} (I : List α → G → Prop) (body : G → α → Except Exc G) (l : List α)
+    (hstep : ∀ done a, a ∈ l → ∀ g g', I done g → body g a = .ok g' → I (a :: done) g') :
+    ∀ (done : List α) (acc : Except Exc G) (g' : G), (∀ g, acc = .ok g → I done g) →
+      l.foldl (fun acc a => bindE acc fun g => body g a) acc = .ok g' →
+      ∃ done', (∀ a, a ∈ l ∨ a ∈ done → a ∈ done') ∧ I done' g' := by
+  induction l with
+  | nil => intro done acc g' hacc h; exact ⟨done, fun a ha => ha.resolve_left List.not_mem_nil, hacc g' h⟩
+  | cons a as ih =>
+    intro done acc g' hacc h
+    simp only [List.foldl_cons] at h
+    have hacc' : ∀ g1, (bindE acc fun g => body g a) = .ok g1 → I (a :: done) g1 := by
+      intro g1 hg1
+      cases acc with
+      | error e => simp [bindE] at hg1
+      | ok g0 => exact hstep done a List.mem_cons_self g0 g1 (hacc g0 rfl) hg1
+    obtain ⟨done', hd, hI⟩ :=
+      ih (fun done b hb => hstep done b (List.mem_cons_of_mem _ hb)) (a :: done) _ g' hacc' h
+    refine ⟨done', ?_, hI⟩
+    intro b hb
+    apply hd
+    rcases hb with hb | hb
+    · rcases List.mem_cons.1 hb with rfl | hb
+      · exact Or.inr List.mem_cons_self
+      · exact Or.inl hb
+    · exact Or.inr (List.mem_cons_of_mem _ hb)
+
+theorem foldE_setAdd_par {p : Nat} {s : Slot} : ∀ (vs : List Nat) {g g' : G},
+    foldE (fun g y => setAdd g p s y) vs g = .ok g' → ∀ c, g'.par c = if c ∈ vs then some p else g.par c := by
+  intro vs
+  induction vs with
+  | nil => intro g g' h c; cases h; simp
+  | cons a as ih =>
+    intro g g' h c
+    obtain ⟨g1, h1, h2⟩ := foldE_cons_ok h
+    rw [ih h2 c, setAdd_par h1 c]
+    simp only [List.mem_cons]
+    by_cases h1 : c ∈ as
+    · simp [h1]
+    · by_cases h2 : c = a
+      · simp [h2]
+      · simp [h1, h2]
+
+theorem setDiscard_par {g g' : G} {q : Nat} {s : Slot} {v : Nat} (h : setDiscard g q s v = .ok g') (c : Nat) :
+    g'.par c = if c = v ∧ v ∈ g.kids q s then none else g.par c := by
+  have := congrArg (fun x => G.par x c) (setDiscard_core h)
+  simp only [core_par] at this
+  rw [this, detach_par]; rfl
+
+theorem modListRemove_par {g g' : G} {i v : Nat} (h : modListRemove g i v = .ok g') (c : Nat) :
+    g'.par c = if c = v then none else g.par c := by
+  have := congrArg (fun x => G.par x c) (modListRemove_core h)
+  simp only [core_par] at this
+  rw [this, detach_par]
+  have hm : v ∈ g.kids i .mods := modListRemove_mem h
+  simp [hm]
+
+/-- the parent setter changes no other node's back-pointer -/
+theorem setParent_par_ne {g g' : G} {c : Nat} {p : Option Nat} (h : setParent g c p = .ok g') {x : Nat}
+    (hx : x ≠ c) : g'.par x = g.par x := by
+  unfold setParent at h
+  split at h
+  · cases h
+  · rename_i s hs
+    split at h
+    · cases h
+    · rename_i g1 h1
+      have e1 : g1.par x = g.par x := by
+        split at h1
+        · split at h1
+          · rw [modListRemove_par h1]; simp [hx]
+          · rw [setDiscard_par h1]; simp [hx]
+        · cases h1; rfl
+      split at h
+      · cases h; exact e1
+      · split at h
+        · rw [modAppend_par h]; simp [hx, e1]
+        · unfold nodeSetAdd at h
+          split at h
+          · rw [blkUpdate_par h]
+            rw [if_neg (by unfold blkNew; simp [List.mem_filter, hx]), e1]
+          · rw [setAdd_par h]; simp [hx, e1]
+
 end Gtirb.Forest
